@@ -194,3 +194,46 @@ package parser
 //@   props C01
 //@   requires specLexWF(self)
 //@   ensures specLexWF(self) [cursor-wf]
+
+// ---- the regular-expression transformer (parser/regexp.go): group scanning looks ahead in the pattern
+// (C01: no index out of range for any pattern, e.g. one that ends right after "(?<").
+// ASSUMED of the helpers it calls (not verified here): they keep the cursor inside the pattern and do not
+// change the pattern text.
+//@ func (*_RegExp_parser).pass
+//@   props C01
+//@   trusted
+//@   ensures specReWF(self) && self.str == old(self.str) [cursor-stays-inside-the-pattern]
+//@ func (*_RegExp_parser).read
+//@   props C01
+//@   trusted
+//@   ensures specReWF(self) && self.str == old(self.str) [cursor-stays-inside-the-pattern]
+//@ func (*_RegExp_parser).writeByte
+//@   props C01
+//@   trusted
+//@   ensures specReWF(self) && self.str == old(self.str) [cursor-stays-inside-the-pattern]
+//@ func (*_RegExp_parser).writeString
+//@   props C01
+//@   trusted
+//@   ensures specReWF(self) && self.str == old(self.str) [cursor-stays-inside-the-pattern]
+//@ func (*_RegExp_parser).scanGroupName
+//@   props C01
+//@   trusted
+//@   ensures specReWF(self) && self.str == old(self.str) [cursor-stays-inside-the-pattern]
+//@ func (*_RegExp_parser).scanEscape
+//@   props C01
+//@   trusted
+//@   ensures specReWF(self) && self.str == old(self.str) [cursor-stays-inside-the-pattern]
+//@ func (*_RegExp_parser).scanBracket
+//@   props C01
+//@   trusted
+//@   ensures specReWF(self) && self.str == old(self.str) [cursor-stays-inside-the-pattern]
+//@ func (*_RegExp_parser).error
+//@   props C01
+//@   trusted
+//@   ensures specReWF(self) && self.str == old(self.str) [cursor-stays-inside-the-pattern]
+
+//@ func (*_RegExp_parser).scanGroup bounds
+//@   props C01
+//@   requires specReWF(self)
+//@   loop 1 invariant specReWF(self) && self.str == old(self.str) [cursor-inside-the-pattern]
+//@   ensures_assumed specReWF(self) && self.str == old(self.str)
